@@ -295,7 +295,7 @@ def interrupt_family(rng):
 
 
 def run(ctx):
-    n = 400 if ctx.tier == "quick" else 1500
+    n = 400 if ctx.tier == "quick" else 12000
     core.WARM_P = 0.0
     if ctx.replay:
         c = ctx.replay["case"]
